@@ -335,7 +335,7 @@ int extract_trigger_args(char **pargs, char **prets, char *trigger)
 				if (!strncasecmp(pos, "arg", 3) || !strncasecmp(pos, "fparg", 5))
 					args = strjoin(args, pos, ",");
 				if (!strncasecmp(pos, "retval", 6))
-					rval = "retval";
+					rval = strjoin(rval, pos, ",");
 				if (!strncasecmp(pos, "auto-args", 9))
 					auto_args = true;
 			}
@@ -347,9 +347,11 @@ int extract_trigger_args(char **pargs, char **prets, char *trigger)
 				free(args);
 			}
 			if (rval) {
-				xasprintf(&act, "%s@retval", name);
+				/* keep the format: the data was saved according to it */
+				xasprintf(&act, "%s@%s", name, rval);
 				retspec = strjoin(retspec, act, ";");
 				free(act);
+				free(rval);
 			}
 			if (auto_args) {
 				argspec = strjoin(argspec, name, ";");
@@ -813,6 +815,7 @@ TEST_CASE(argspec_extract)
 	char test_trigger_str1[] = "foo@arg1,retval";
 	char test_trigger_str2[] = "foo@trace-on;bar@depth=2,arg1/s,trace-off,arg2/x64";
 	char test_trigger_str3[] = "foo@libabc,arg3/i32%rax,backtrace";
+	char test_trigger_str4[] = "foo@retval/s;bar@arg1,retval/f64";
 	char *args, *rets;
 
 	pr_dbg("extracting args/rets from %s\n", test_trigger_str1);
@@ -841,6 +844,16 @@ TEST_CASE(argspec_extract)
 
 	TEST_STREQ("foo@arg3/i32%rax", args);
 	TEST_EQ(rets, NULL);
+
+	free(args);
+	free(rets);
+
+	pr_dbg("extracting args/rets from %s\n", test_trigger_str4);
+	args = rets = NULL;
+	extract_trigger_args(&args, &rets, test_trigger_str4);
+
+	TEST_STREQ("bar@arg1", args);
+	TEST_STREQ("foo@retval/s;bar@retval/f64", rets);
 
 	free(args);
 	free(rets);
